@@ -31,6 +31,12 @@ def process_state(pristine=None, caller_dir=None):
     st['env'] = sorted(k for k in os.environ if pristine is not None and k not in pristine.get('_env_keys', set()))
     st['caller_dir_files'] = sorted(os.listdir(caller_dir)) if caller_dir and os.path.isdir(caller_dir) else []
     st['stdout_is_original'] = sys.stdout is (pristine or {}).get('_stdout', sys.stdout)
+    # module-level and class-level containers of the library itself (scratch lists, shared default lists, registries): names whose content
+    # is no longer what it was in the pristine interpreter. Not a verdict (a memo table would show here too) - it keeps the pruned search from
+    # merging histories after which the library holds different data, and the names are listed in the evidence.
+    if pristine is not None and '_lib_data' in pristine:
+        now = library_data()
+        st['lib_data_changed'] = sorted(k for k in set(now) | set(pristine['_lib_data']) if now.get(k) != pristine['_lib_data'].get(k))
     memo = {}
     try:
         from geophires_x.Units import get_unit_registry
@@ -52,9 +58,45 @@ def process_state(pristine=None, caller_dir=None):
     return st, memo
 
 
+LIB_PREFIXES = ('geophires_x', 'geophires_x_client', 'hip_ra_x', 'hip_ra', 'geophires_monte_carlo', 'geophires_x_schema_generator')
+
+
+def _digest_container(v, depth=0):
+    import hashlib
+    try:
+        if isinstance(v, dict):
+            body = repr(sorted((repr(k), _digest_container(x, depth + 1) if isinstance(x, (list, dict, set)) and depth < 2 else repr(x)[:200]) for k, x in v.items()))
+        elif isinstance(v, set):
+            body = repr(sorted(repr(x)[:200] for x in v))
+        else:
+            body = repr([_digest_container(x, depth + 1) if isinstance(x, (list, dict, set)) and depth < 2 else repr(x)[:200] for x in v])
+    except Exception as e:  # noqa
+        body = f'<unreprable {type(e).__name__}>'
+    return hashlib.sha1(body.encode('utf-8', 'replace')).hexdigest()[:12] + f':{len(v)}'
+
+
+def library_data():
+    """{qualified name: digest} of every list / dict / set bound at module level or class level in the library's own modules"""
+    import inspect
+    out = {}
+    for mname, mod in list(sys.modules.items()):
+        if mod is None or not mname.startswith(LIB_PREFIXES) or mname.startswith('geophires_x._verif'):
+            continue
+        for a, v in list(vars(mod).items()):
+            if a.startswith('__'):
+                continue
+            if isinstance(v, (list, dict, set)):
+                out[f'{mname}.{a}'] = _digest_container(v)
+            elif inspect.isclass(v) and getattr(v, '__module__', None) == mname:
+                for ca, cv in list(vars(v).items()):
+                    if not ca.startswith('__') and isinstance(cv, (list, dict, set)):
+                        out[f'{mname}.{v.__name__}.{ca}'] = _digest_container(cv)
+    return out
+
+
 def pristine_marks():
     import numpy
-    return {'_numpy_dir': set(dir(numpy)), '_env_keys': set(os.environ), '_stdout': sys.stdout}
+    return {'_numpy_dir': set(dir(numpy)), '_env_keys': set(os.environ), '_stdout': sys.stdout, '_lib_data': library_data()}
 
 
 def histories(alphabet, max_len):
